@@ -441,7 +441,8 @@ LAZY_FLAVS = [(LAZY_BASE, False), (LAZY_BASE, True), ("hybrid.lazy_tree.Node", F
 # wire records for lazy_tree.Node: field 99 (lazy nested Node) valid empty / valid with content / wrong wire type (varint) /
 # non-minimal length / ill-formed inside; field 1 (eager int32); an unknown field
 LAZY_RECS = [[154, 6, 0], [154, 6, 2, 8, 1], [152, 6, 5], [154, 6, 130, 0, 8, 1], [154, 6, 1, 255], [8, 1], [160, 31, 1],
-             [154, 6, 3, 160, 31, 7]]      # the last one: an unknown field INSIDE the lazy submessage
+             [154, 6, 3, 160, 31, 7],      # an unknown field INSIDE the lazy submessage
+             [15]]                         # an invalid tag: whatever was deferred before it stays behind in a failed decode (F27)
 LAZY_TYPES = ["goproto.proto.test.OpaqueLazy", "goproto.proto.test.HybridLazy", "goproto.proto.test.OpaqueLazy:dyn", "opaque.lazy_tree.Node", "hybrid.lazy_tree.Node", "lazy_tree.Node", "opaque.lazy_tree.Node:dyn",
               "opaque.goproto.proto.testeditions.TestRequiredLazy", "goproto.proto.testeditions.TestRequiredLazy",
               "opaque.goproto.proto.testeditions.TestAllTypes", "hybrid.goproto.proto.testeditions.TestAllTypes",
@@ -467,8 +468,9 @@ def c17(res, tier, seed):
     b = build_harness(PKG)
     # every input of up to 2 (quick) / 3 (thorough) records, decoded lazily and eagerly (nolazy both ways), followed by accesses:
     # re-marshal (default and deterministic) into another object, size, clone, equal, merge, checkinit
-    mc(res, b, "lazy-node", LAZY_BASE, [1, 99], ["uwire", "uwdisc", "rt", "size", "clone", "equal", "checkinit"] + ([] if tier == "quick" else ["uwmerge"]),
-       2, nest_at=99, nest_fields=[1], wire_recs=[LAZY_RECS[i] for i in (0, 1, 2, 7, 5)] if tier == "quick" else LAZY_RECS,
+    # (merging decodes have their own configuration below: with uwmerge here the thorough tour had 21.8 M lines / 68 min)
+    mc(res, b, "lazy-node", LAZY_BASE, [1, 99], ["uwire", "uwdisc", "rt", "size", "clone", "equal", "checkinit"],
+       2, nest_at=99, nest_fields=[1], wire_recs=[LAZY_RECS[i] for i in (0, 1, 2, 7, 5, 8)] if tier == "quick" else LAZY_RECS,
        max_recs=2, flavs=LAZY_FLAVS, laws=["AllWellFormed", "RoundTripLaw"])
     lazy_groups_config(res, b)
     # merging decodes (lazy then eager, eager then lazy) into one object: found F22
